@@ -117,9 +117,7 @@ def run_job(job):
     try:
         header, ops, trailer, stray = logparse.parse(logp)
         if header is None and not skey: raise RuntimeError('log has no header')
-        if sj['cfg'].get('builtin_rng'):
-            # built-in generator: outcomes of random regions are not predictable by the interpreter; sanitizers and in-process checks only
-            ops = [o for o in ops if False]
+        # (machines using the built-in generator are checked differentially only: see Checker.lockstep_only)
         knobs = {k: v for k, v in PROFILES[profile].items() if k in ('zeroUtil', 'palette', 'pConsume')}
         knobs['plans'] = 1 if PROFILES[profile].get('planDump') else 0
         knobs['mirror'] = 1 if PROFILES[profile].get('verboseMethods') else 0
@@ -344,7 +342,7 @@ def c10_engine(prop, tier, seed, keep=False):
         res = list(ex.map(c10_job, jobs, chunksize=1))
     cjobs = []
     for sj, fl, ex_, binp, out in builds:
-        if binp is None or fl == 'clang-tsan' or sj['cfg'].get('builtin_rng'): continue
+        if binp is None or fl == 'clang-tsan': continue
         rseed = (seed * 104729 + (zlib.crc32(sj['name'].encode()) & 0xffff)) % 2000000011 + 1
         cjobs.append((sj, fl, binp, 'copies', rseed, T['steps'], prop, keep))
     with cf.ProcessPoolExecutor(max_workers=vlib.JOBS) as ex:
